@@ -53,6 +53,8 @@ pub struct AInner {
     pub conts: VecDeque<ContItem>,
     pub deliveries: Vec<Delivery>,
     pub calls: usize,
+    pub lp_calls: usize,
+    pub fault_lp: Option<usize>,
     pub fault_at: Option<usize>,
     pub tx_done_ms: u32,
     pub lead_ms: u32,
@@ -166,7 +168,9 @@ impl<const PW: u8, const GAIN: i8> PhyRxTx for ARadio<PW, GAIN> {
 
     async fn low_power(&mut self) -> Result<(), Self::PhyError> {
         let mut g = self.0.borrow_mut();
-        let failed = g.fault();
+        let k = g.lp_calls;
+        g.lp_calls += 1;
+        let failed = g.fault() || g.fault_lp == Some(k);
         g.log.push(AOp::LowPower { failed });
         if failed { Err("low_power fault") } else { Ok(()) }
     }
@@ -233,6 +237,10 @@ pub struct Script {
     pub rxc2: Vec<Frame>,
     /// index of the radio call (0-based, within this public call) that fails
     pub fault_at: Option<usize>,
+    /// the n-th low_power() call of this public call fails (a position that does not shift when a window
+    /// hears one more frame)
+    #[serde(default)]
+    pub fault_low_power: Option<usize>,
 }
 
 #[derive(Clone, Debug, Serialize, Deserialize, PartialEq, Eq, Hash)]
@@ -246,6 +254,7 @@ pub enum AEv {
     ClassC(bool),
     Rng(Vec<u32>),
     Persist,
+    UseCreds(u8),
 }
 
 #[derive(Clone, Debug)]
@@ -282,6 +291,8 @@ impl<const PW: u8, const GAIN: i8, const N: usize> ACore<PW, GAIN, N> {
             conts: VecDeque::new(),
             deliveries: vec![],
             calls: 0,
+            lp_calls: 0,
+            fault_lp: None,
             fault_at: None,
             tx_done_ms: 0,
             lead_ms: cfg.offset_ms.unsigned_abs(),
@@ -337,6 +348,8 @@ impl<const PW: u8, const GAIN: i8, const N: usize> ACore<PW, GAIN, N> {
         }
         g.conts.push_back(ContItem::End);
         g.fault_at = s.fault_at;
+        g.fault_lp = s.fault_low_power;
+        g.lp_calls = 0;
         g.calls = 0;
         g.singles_seen = 0;
     }
@@ -357,7 +370,8 @@ impl<const PW: u8, const GAIN: i8, const N: usize> ACore<PW, GAIN, N> {
         let dev = &mut self.dev;
         let r: Result<AResp, String> = match ev {
             AEv::Join(_) => {
-                let mode = JoinMode::OTAA { deveui: DevEui::from(DEVEUI), appeui: AppEui::from(APPEUI), appkey: AppKey::from(APPKEY) };
+                let (de, ae, ak) = creds(self.inner.borrow().net.creds);
+                let mode = JoinMode::OTAA { deveui: DevEui::from(de), appeui: AppEui::from(ae), appkey: AppKey::from(ak) };
                 catch(|| match drive(dev.join(&mode)) {
                     None => AResp::Blocked,
                     Some(Ok(JoinResponse::JoinSuccess)) => AResp::JoinSuccess,
@@ -406,6 +420,10 @@ impl<const PW: u8, const GAIN: i8, const N: usize> ACore<PW, GAIN, N> {
             }
             AEv::ClassC(on) => {
                 if *on { dev.enable_class_c() } else { dev.disable_class_c() }
+                Ok(AResp::Done)
+            }
+            AEv::UseCreds(k) => {
+                self.inner.borrow_mut().net.creds = *k;
                 Ok(AResp::Done)
             }
             AEv::Rng(p) => {
